@@ -31,6 +31,7 @@ sys.path.insert(0, os.path.dirname(os.path.abspath(__file__)))
 from common import *  # noqa
 import project as P
 import servers
+import handlermodel
 
 PROP = "C12"
 ENGINES = servers.ALL5
@@ -197,6 +198,7 @@ def route_requests(p, c, m):
                 rq["query"] = list(rq["query"]) + [(dname, dval)]
             elif dloc == "form":
                 rq["form"] = list(rq["form"] or []) + [(dname, dval)]
+        tags["values"] = dict(values if values is not None else base)
         out.append((label, tags, rq, script or {}))
 
     add("valid")
@@ -524,6 +526,40 @@ def main():
                        "observed": describe(case),
                        "claim": "prop_C12: the five routers answer a request to an annotated route with equal "
                                 "status, controller-call record, authorization record and JSON-equal body"})
+    # ---- absolute leg: every engine's observation against the engine-independent handler model
+    verdicts = handlermodel.judge_cases(PROP, projects, cases)
+    hcodes = {}
+    for v in verdicts:
+        hcodes[v["code"]] = hcodes.get(v["code"], 0) + 1
+    model_unexplained = {}
+    model_known = 0
+    coq_bad_set = set(coq_bad)
+    for i, v in enumerate(verdicts):
+        if v["code"] < 2:
+            continue
+        case = cases[i]
+        if v["code"] == 3:
+            res.violation({"kind": "harness", "obligation": "Handler.find_route: the route of a generated request is not in "
+                           "the Coq project term", "controller": case["controller"], "method": case["method"]}, no_input=True)
+            break
+        classes = deviation_class(case)
+        if i in coq_bad_set or any(f.get("match", {}).get("kind") in classes for f in known):
+            # the engines disagree among themselves (already judged by the relational leg) or the request belongs to a
+            # listed divergent class: the model can side with one group only
+            model_known += 1
+            continue
+        key = (tuple(classes), tuple(v["deviating"]), case["label"].split(":")[0].split("=")[0])
+        model_unexplained.setdefault(key, []).append(i)
+    for key, ids in sorted(model_unexplained.items(), key=lambda kv: -len(kv[1]))[:3]:
+        case = cases[ids[0]]
+        small = minimal_project(projects[case["project"]], case)
+        res.violation({"kind": "handler-model-correspondence", "obligation": "Handler.judge = 0 (every compiled router refines "
+                       "Handler.handle on the request; theorem C12_judge_zero then gives pairwise agreement)",
+                       "input": {"project": small, "label": case["label"]}, "engines_not_refining": list(key[1]),
+                       "occurrences": len(ids), "observed": describe(case),
+                       "note": "the five routers agree with each other on this request but not with the model of the "
+                               "generated handler (status / authorization record / controller call with decoded arguments)"},
+                      no_input=True)
     if os.environ.get("C12_DUMP"):
         with open(os.environ["C12_DUMP"], "w") as f:
             json.dump([dict(describe(cases[i]), classes=deviation_class(cases[i]), deviating=cases[i]["deviating"],
@@ -553,6 +589,9 @@ def main():
         "samples": [describe(cases[i]) for i in sample_ids],
         "requests": len(cases), "request_labels": labels,
         "known_finding_hits": known_count, "unexplained_classes": len(unknown_classes),
+        "handler_model": {"refined_by_all_engines": hcodes.get(0, 0), "outside_modelled_fragment": hcodes.get(1, 0),
+                          "differs_in_known_divergent_class": model_known,
+                          "differs_unexplained": sum(len(x) for x in model_unexplained.values())},
         "input_distribution": {
             "projects": len(projects), "routes": sum(len(c["methods"]) for p in projects for c in p["controllers"]),
             "template_classes": {tc: sum(1 for c in cases if c["template_class"] == tc)
@@ -564,6 +603,8 @@ def main():
     })
     res.assumptions += [
         "the five frameworks' route matching, path unescaping, query/header/form decoding are exercised, not modelled",
+        "handler model (absolute leg): floats, enum/alias parameter types, validator rules other than required/gt/gte/lt/lte/"
+        "min/max and controller scripts other than fail/status/headers are outside the modelled fragment (skipped, counted)",
         "requests are delivered in-process (httptest / fiber app.Test), not over a socket",
         "canonicalisation: JSON bodies compared as values; framework-generated 3xx/404/405 bodies replaced by a marker; "
         "panics compared by message; response headers ignored",
